@@ -35,6 +35,9 @@ type hsRow struct {
 type hsInput struct {
 	N    int     `json:"n"`
 	Rows []hsRow `json:"rows"`
+	// several peer-set sizes in one call (threshold probes of SigHeader's quorum mode): one world per entry,
+	// every observation carries the entry's index "w"
+	Batch []hsInput `json:"batch"`
 }
 type hsKey struct {
 	pri keypair.PrivateKey
@@ -143,11 +146,34 @@ func TestVerifSigHeaderSync(t *testing.T) {
 	vhIn(&in)
 	out := vhOpenOut()
 	defer out.Close()
+	if len(in.Batch) == 0 {
+		hsRunWorld(out, -1, &in)
+	}
+	for wi := range in.Batch {
+		hsRunWorld(out, wi, &in.Batch[wi])
+	}
+	out.Emit(map[string]interface{}{"done": true})
+}
+
+// one stored peer set of in.N peers; every row's header goes to SyncBlockHeader and to VerifyHeader
+func hsRunWorld(out *vhOut, wi int, in *hsInput) {
 	w := hsNewWorld(in.N)
-	out.Emit(map[string]interface{}{"meta": true, "peers": in.N})
+	// the size of the peer set the contract has stored for the genesis key height (what VerifyHeader will read)
+	npeers := -1
+	cb, _ := utils.GetUint64Bytes(hsChain)
+	hb, _ := utils.GetUint32Bytes(0)
+	if item, err := w.service(nil).CacheDB.Get(utils.ConcatKey(utils.HeaderSyncContractAddress, []byte(header_sync.CONSENSUS_PEER), cb, hb)); err == nil && item != nil {
+		if val, err := states.GetValueFromRawStorageItem(item); err == nil {
+			cp := &header_sync.ConsensusPeers{PeerMap: map[string]*header_sync.Peer{}}
+			if cp.Deserialization(common.NewZeroCopySource(val)) == nil {
+				npeers = len(cp.PeerMap)
+			}
+		}
+	}
+	out.Emit(map[string]interface{}{"meta": true, "peers": in.N, "w": wi, "storedPeers": npeers})
 	for i := range in.Rows {
 		h, raw := w.header(&in.Rows[i])
-		o := map[string]interface{}{"i": i}
+		o := map[string]interface{}{"i": i, "w": wi}
 		func() {
 			defer func() {
 				if r := recover(); r != nil {
@@ -172,5 +198,4 @@ func TestVerifSigHeaderSync(t *testing.T) {
 		}()
 		out.Emit(o)
 	}
-	out.Emit(map[string]interface{}{"done": true})
 }
